@@ -1016,6 +1016,32 @@ func c07Wrappers(c *core.Ctx) {
 						okM = res.OK()
 					}
 					c.Check(okM, "R6", "wrapper=kv.MultiClient:mirror", fn.Pos(), "secondary is written only after the primary CAS returned nil", 2)
+					// the answer of the wrapper is the primary's answer: every return hands back the primary CAS's error and nothing else
+					CCp := fn.Canon(call.Expr)
+					okR := true
+					vals := []string{}
+					for _, b := range g.Blocks {
+						r := an.ReturnOf(b)
+						if r == nil || len(r.Results) != 1 {
+							continue
+						}
+						if obj := fn.ObjOf(r.Results[0]); obj != nil && fn.DefCount(obj) > 1 {
+							ex := g.Exec(g.EntryLoc(), []an.Loc{g.Locate(r)}, func(ast.Expr, an.Store) an.Tri { return an.U }, an.ExecOpts{Watch: obj})
+							for v := range ex.Vals[0] {
+								vals = append(vals, v)
+								if v != CCp {
+									okR = false
+								}
+							}
+						} else {
+							v := fn.Canon(r.Results[0])
+							vals = append(vals, v)
+							if v != CCp {
+								okR = false
+							}
+						}
+					}
+					c.Check(okR && len(vals) > 0, "R6", "wrapper=kv.MultiClient:result", fn.Pos(), fmt.Sprintf("CAS reports exactly what the primary store's CAS reported (a mirror failure must not turn a committed update into a failed call): returned %v", vals), 1)
 				}
 			} else {
 				fc := call.In.Canon(farg)
